@@ -34,6 +34,12 @@ pub(crate) const LOG_LEN: usize = 24;
 pub(crate) struct SpiLog { pub n: usize, pub w: [[u8; 12]; LOG_LEN], pub wl: [usize; LOG_LEN], pub reads: usize, pub fail_at: usize, pub ops: usize }
 pub(crate) static mut SPI: SpiLog = SpiLog { n: 0, w: [[0; 12]; LOG_LEN], wl: [0; LOG_LEN], reads: 0, fail_at: usize::MAX, ops: 0 };
 
+/// optional SX127x register-file contract (A-chip: a configuration register holds the last value written to it and
+/// reads return it).  Off by default: reads are then arbitrary bytes.  Harnesses that need read-modify-write sequences
+/// to compose (C15: the LDRO bit must survive every later register write) switch it on with arbitrary initial content.
+pub(crate) struct RegFile { pub on: bool, pub r: [u8; 128], pub addr: u8 }
+pub(crate) static mut REGS: RegFile = RegFile { on: false, r: [0; 128], addr: 0 };
+
 pub(crate) struct MockSpi;
 #[derive(Debug)]
 pub(crate) struct MockErr;
@@ -54,11 +60,15 @@ impl SpiDevice<u8> for MockSpi {
                             SPI.wl[SPI.n] = b.len();
                             SPI.n += 1;
                         }
+                        if REGS.on && k == 0 && b.len() >= 1 {
+                            REGS.addr = b[0] & 0x7f;
+                            if b[0] & 0x80 != 0 && b.len() == 2 { REGS.r[REGS.addr as usize] = b[1]; }
+                        }
                     }
                     Operation::Read(b) => {
                         // the chip answers with arbitrary bytes
                         let mut i = 0;
-                        while i < b.len() { b[i] = tape::stub_u8(); i += 1; }
+                        while i < b.len() { b[i] = if REGS.on { REGS.r[(REGS.addr as usize + i) & 0x7f] } else { tape::stub_u8() }; i += 1; }
                         SPI.reads += 1;
                     }
                     _ => {}
